@@ -234,7 +234,7 @@ def main(run):
             run.other_error(f"C15:{type(ex).__name__}")
             continue
         stored, prev_ret = [], dict(e.importance_values)
-        ncalls = rnd.choice([8, 15, 24])
+        ncalls = rnd.choice([8, 15, 24]) if i % 40 != 7 else 300        # a few long schedules (ordinal counters beyond 256)
         try:
             for c in range(1, ncalls + 1):
                 x = {f: 1000 * c + j for j, f in enumerate(names)}
